@@ -2,6 +2,7 @@ package checks
 
 import (
 	"fmt"
+	"time"
 
 	"github.com/mit-pdos/go-journal/vrt"
 	"verif/fsx"
@@ -80,7 +81,9 @@ func C04(r *report.Report, tier string) {
 		jobs = append(jobs, crashArg{Prop: "C04", DiskSize: 3000, Setup: crashSetup, Ops: h, Cap: cap, Probe: crashProbe, FsckOnly: true})
 	}
 	runCrashJobs(r, jobs, map[string]bool{"C04": true})
-	for _, h := range concHarnesses() {
+	chs := concHarnesses()
+	for hi, h := range chs {
+		fairShare(hi, len(chs))
 		if timeUp() {
 			r.Exhaustive = false
 			break
@@ -88,5 +91,6 @@ func C04(r *report.Report, tier string) {
 		s := ExploreAll(r, "nfs.conc", h, bound, vrt.PUnlock, false)
 		r.Sample(map[string]interface{}{"harness": h.Name, "executions": s.Execs})
 	}
+	HarnessDeadline = time.Time{}
 	r.Extra["bounds"] = map[string]int{"depth": depth, "crash_depth": cdepth, "deviations": bound, "loss_product_cap": cap}
 }
